@@ -33,6 +33,11 @@ structure Cfg where
   /-- get.go/has.go/node.go, inner slice branch: `end = start + (end-start-1)/step*step` is computed
   without testing that the range is non-empty; when the quotient truncates to 0 index `start` is pushed -/
   innerEmptySlice : Bool := true
+  /-- get.go/has.go/node.go, descent: the containers an inner fragment pushes share one fragment-index
+  marker; expanding the first of them sets `descentFlag` on that marker and it is never cleared, so the
+  following siblings are taken for already expanded: the rest of the path is applied to them but not
+  to anything below them -/
+  descentSiblings : Bool := true
   /-- slice.go `startEndStep` (Locate, Walk): a negative end is `size + end + 1` (inclusive) -/
   locNegEnd : Bool := true
   /-- slice.go `startEndStep`: a start at or beyond the size becomes `size - 1` (Get selects nothing);
@@ -55,7 +60,7 @@ structure Cfg where
 
 def Cfg.pinned : Cfg := {}
 def Cfg.fixed : Cfg :=
-  { innerEmptySlice := false, locNegEnd := false, locStartClamp := false, walkDescentNoSelf := false,
+  { innerEmptySlice := false, descentSiblings := false, locNegEnd := false, locStartClamp := false, walkDescentNoSelf := false,
     nodesUnionNil := false, nodesFilterRev := false, firstNodeLast := false, nodesFilterNull := false }
 
 /-- how arrays are held -/
@@ -223,11 +228,26 @@ structure Sel where
   last : Frag → JV → List (Path × JV)
   inner : Frag → JV → List (Path × JV)
 
-/-- the traversal all evaluators share ("the easy way" of the comment in get.go) -/
-def evalSel (S : Sel) : List Frag → JV → List (Path × JV)
+def isDescent : Frag → Bool
+  | .descent => true
+  | _ => false
+
+/-- prefix the locations of a result list -/
+def pre (p : Path) (l : List (Path × JV)) : List (Path × JV) := l.map fun q => (p ++ q.1, q.2)
+
+/-- the traversal all evaluators share ("the easy way" of the comment in get.go).
+`sib` = the `descentSiblings` deviation of the stack machines: where a descent follows another
+fragment, only the first element that fragment hands on is descended into; for the others the rest
+of the path is applied to the element itself only. -/
+def evalSel (S : Sel) (sib : Bool) : List Frag → JV → List (Path × JV)
   | [], v => [([], v)]
   | [f], v => S.last f v
-  | f :: g :: r, v => (S.inner f v).flatMap fun m => (evalSel S (g :: r) m.2).map fun q => (m.1 ++ q.1, q.2)
+  | f :: g :: r, v =>
+    if sib && isDescent g && !isDescent f then
+      match S.inner f v with
+      | [] => []
+      | m :: ms => pre m.1 (evalSel S sib (g :: r) m.2) ++ ms.flatMap fun m => pre m.1 (evalSel S sib r m.2)
+    else (S.inner f v).flatMap fun m => pre m.1 (evalSel S sib (g :: r) m.2)
 
 /-! ## Get (jp/get.go) -/
 
@@ -339,36 +359,58 @@ def push (cfg : Cfg) (rep : Rep) : Frag → JV → List (Path × JV)
 def sel (cfg : Cfg) (rep : Rep) : Sel :=
   { last := last rep, inner := fun f v => (push cfg rep f v).reverse }
 
-/-- one entry of the evaluation stack: a data element with the fragment index (and flags) above it -/
-structure Item where
-  d : JV
+/-- a stretch of the evaluation stack: data elements (the head is the top) under one fragment-index
+marker with its flags. The Go stack is the concatenation of such stretches; the round that only pops
+an exhausted marker is folded into the round before it (a frame never stays empty). -/
+structure Frame where
   fi : Nat
-  dflag : Bool   -- descentFlag: the node was expanded, this is its second pass
-  cflag : Bool   -- descentChildFlag: the node was pushed as a member of an expanded node
+  dflag : Bool   -- descentFlag on the marker
+  cflag : Bool   -- descentChildFlag on the marker
+  items : List JV
   deriving Inhabited
 
-/-- one round of the main loop for a popped item: (results appended, items pushed in pop order).
-`L`/`P` are the last-branch and inner-branch (push order) selections of the non-descent fragments. -/
-def step (L P : Frag → JV → List JV) (x : List Frag) (it : Item) : List JV × List Item :=
-  match x.drop it.fi with
-  | [] => ([], [])
+/-- the frame that remains when its top element is gone -/
+def Frame.rest (fr : Frame) (dflag : Bool) (items : List JV) : List Frame :=
+  if items.isEmpty then [] else [{ fr with dflag := dflag, items := items }]
+
+/-- pushed data gets the next fragment index above it, if there is any -/
+def pushed (fi : Nat) (items : List JV) : List Frame :=
+  if items.isEmpty then [] else [⟨fi, false, false, items⟩]
+
+/-- one round of the main loop: the top element `d` of frame `fr` (whose other elements are `rest`) is
+popped; the result is what is appended to the results and the frames that replace `fr`.
+`L`/`P` are the last-branch results and the inner-branch pushes (in push order) of the fragments other
+than descent. -/
+def step (sib : Bool) (L P : Frag → JV → List JV) (x : List Frag) (fr : Frame) (d : JV) (rest : List JV) :
+    List JV × List Frame :=
+  match x.drop fr.fi with
+  | [] => ([], fr.rest fr.dflag rest)
   | .descent :: r =>
-    if !it.dflag then
-      -- first pass
-      ((if r.isEmpty then (members it.d).map (·.2) else []),
-       ((⟨it.d, it.fi, true, it.cflag⟩ : Item) ::
-          (((members it.d).map (·.2)).reverse.filter isContainer).map fun c => ⟨c, it.fi, false, true⟩).reverse)
-    else if r.isEmpty then ((if !it.cflag then [it.d] else []), [])
-    else ([], [⟨it.d, it.fi + 1, false, false⟩])
+    if !fr.dflag then
+      -- first pass: prev goes back under the marker, which gets descentFlag; in the last position the
+      -- members are results; members that are containers are pushed, each with its own marker
+      -- carrying descentChildFlag (back to front)
+      ((if r.isEmpty then (members d).map (·.2) else []),
+       ((((members d).map (·.2)).reverse.filter isContainer).map fun c => (⟨fr.fi, false, true, [c]⟩ : Frame)).reverse
+         ++ [{ fr with dflag := true, items := d :: rest }])
+    else if r.isEmpty then
+      -- second pass, last position: the node itself unless it was reported as a member
+      ((if !fr.cflag then [d] else []), fr.rest sib rest)
+    else
+      -- second pass: the rest of the path is evaluated on the node
+      ([], pushed (fr.fi + 1) [d] ++ fr.rest sib rest)
   | f :: r =>
-    if r.isEmpty then (L f it.d, [])
-    else ([], ((P f it.d).map fun c => (⟨c, it.fi + 1, false, false⟩ : Item)).reverse)
+    if r.isEmpty then (L f d, fr.rest fr.dflag rest)
+    else ([], pushed (fr.fi + 1) (P f d).reverse ++ fr.rest fr.dflag rest)
 
 /-- the main loop; the head of the list is the top of the stack -/
-def run (L P : Frag → JV → List JV) (x : List Frag) : Nat → List Item → List JV → List JV
+def run (sib : Bool) (L P : Frag → JV → List JV) (x : List Frag) : Nat → List Frame → List JV → List JV
   | 0, _, acc => acc
   | _ + 1, [], acc => acc
-  | n + 1, it :: st, acc => run L P x n ((step L P x it).2 ++ st) (acc ++ (step L P x it).1)
+  | n + 1, fr :: st, acc =>
+    match fr.items with
+    | [] => run sib L P x n st acc
+    | d :: rest => run sib L P x n ((step sib L P x fr d rest).2 ++ st) (acc ++ (step sib L P x fr d rest).1)
 
 /-- rounds of the main loop needed for a value under the remaining fragments -/
 def cost (P : Frag → JV → List JV) : List Frag → JV → Nat
@@ -387,10 +429,11 @@ end Get
 def getM (cfg : Cfg) (rep : Rep) (x : List Frag) (d : JV) : List JV :=
   match x with
   | [] => [d]
-  | _ => Get.run (Get.lastV rep) (Get.pushV cfg rep) x (Get.cost (Get.pushV cfg rep) x d) [⟨d, 0, false, false⟩] []
+  | _ => Get.run cfg.descentSiblings (Get.lastV rep) (Get.pushV cfg rep) x (Get.cost (Get.pushV cfg rep) x d + 1)
+           [⟨0, false, false, [d]⟩] []
 
 /-- the same through the skeleton -/
-def getS (cfg : Cfg) (rep : Rep) (x : List Frag) (d : JV) : List (Path × JV) := evalSel (Get.sel cfg rep) x d
+def getS (cfg : Cfg) (rep : Rep) (x : List Frag) (d : JV) : List (Path × JV) := evalSel (Get.sel cfg rep) cfg.descentSiblings x d
 
 /-! ## First / FirstFound and Has (jp/get.go:885-1683, jp/has.go)
 
@@ -453,7 +496,7 @@ end First
 
 /-- `Expr.FirstFound` -/
 def firstM (cfg : Cfg) (rep : Rep) (x : List Frag) (d : JV) : Option JV :=
-  ((evalSel (First.sel cfg rep) x d).map (·.2)).head?
+  ((evalSel (First.sel cfg rep) cfg.descentSiblings x d).map (·.2)).head?
 
 /-- `Expr.Has` (has.go is FirstFound with `return true`; typed maps are not pushed: the kind list of the
 inner branches lacks `reflect.Map`) -/
@@ -464,7 +507,7 @@ def Has.inner (cfg : Cfg) (rep : Rep) (f : Frag) (v : JV) : List (Path × JV) :=
 def Has.sel (cfg : Cfg) (rep : Rep) : Sel := { last := First.last rep, inner := Has.inner cfg rep }
 
 def hasM (cfg : Cfg) (rep : Rep) (x : List Frag) (d : JV) : Bool :=
-  !(evalSel (Has.sel cfg rep) x d).isEmpty
+  !(evalSel (Has.sel cfg rep) cfg.descentSiblings x d).isEmpty
 
 /-! ## Locate and Expr.Walk (the `locate` and `Walk` methods of each fragment type) -/
 
@@ -537,7 +580,7 @@ def fault (cfg : Cfg) (rep : Rep) : List Frag → JV → Bool
 end Locate
 
 /-- `Expr.Locate(data, 0)`: the normalized paths (with the located values) -/
-def locateM (cfg : Cfg) (rep : Rep) (x : List Frag) (d : JV) : List (Path × JV) := evalSel (Locate.sel cfg rep) x d
+def locateM (cfg : Cfg) (rep : Rep) (x : List Frag) (d : JV) : List (Path × JV) := evalSel (Locate.sel cfg rep) false x d
 
 namespace Walk
 
@@ -578,7 +621,7 @@ def sel (cfg : Cfg) (rep : Rep) : Sel := { last := last cfg rep, inner := inner 
 end Walk
 
 /-- `Expr.Walk`: (normalized path, last node) of every callback -/
-def walkM (cfg : Cfg) (rep : Rep) (x : List Frag) (d : JV) : List (Path × JV) := evalSel (Walk.sel cfg rep) x d
+def walkM (cfg : Cfg) (rep : Rep) (x : List Frag) (d : JV) : List (Path × JV) := evalSel (Walk.sel cfg rep) false x d
 
 /-! ## GetNodes and FirstNode (jp/node.go, gen data only) -/
 
@@ -617,7 +660,7 @@ def sel (cfg : Cfg) : Sel := { last := last cfg, inner := inner cfg }
 end Nodes
 
 /-- `Expr.GetNodes` -/
-def nodesM (cfg : Cfg) (x : List Frag) (d : JV) : List JV := (evalSel (Nodes.sel cfg) x d).map (·.2)
+def nodesM (cfg : Cfg) (x : List Frag) (d : JV) : List JV := (evalSel (Nodes.sel cfg) cfg.descentSiblings x d).map (·.2)
 
 namespace FirstNode
 
@@ -641,6 +684,6 @@ end FirstNode
 
 /-- `Expr.FirstNode` -/
 def firstNodeM (cfg : Cfg) (x : List Frag) (d : JV) : Option JV :=
-  ((evalSel (FirstNode.sel cfg) x d).map (·.2)).head?
+  ((evalSel (FirstNode.sel cfg) cfg.descentSiblings x d).map (·.2)).head?
 
 end OjgVerif.JPath
